@@ -84,11 +84,34 @@ fn history_segs(rng: &mut Rng, h: &str, l: &mut LinkScn) {
             // needs a fixed buffer; START + (N+1) non-zero non-1b data bytes: OOM fires at the last one
             let n = *rng.pick(&[0usize, 1, 2, 3, 4, 5, 8, 16]);
             l.buf = BufKind::Arr(n);
-            let p: Vec<u8> = (0..n + 1).map(|i| 0x50 + (i as u8 % 32)).collect();
-            l.segs.push(Seg::Cut {
-                payload: Hx(p),
-                cut: 8 + n + 1,
-            });
+            let mut p: Vec<u8> = (0..n + 1).map(|i| 0x50 + (i as u8 % 32)).collect();
+            match rng.below(3) {
+                0 => {
+                    // the byte that does not fit is an ordinary one
+                    l.segs.push(Seg::Cut { payload: Hx(p), cut: 8 + n + 1 });
+                }
+                1 => {
+                    // ... is a withheld zero, found out when the next non-zero byte flushes the zeros
+                    p.truncate(n);
+                    let z = rng.range(1, 4);
+                    p.extend(std::iter::repeat(0).take(z));
+                    p.push(0x6f);
+                    let cut = 8 + p.len();
+                    l.segs.push(Seg::Cut { payload: Hx(p), cut });
+                }
+                _ => {
+                    // ... is a withheld zero, found out at the end sequence of the (complete) frame
+                    // (data zeros + padding zeros must not exceed the four the decoder withholds, or the
+                    // fifth one would be stored - and overflow - before the frame is complete)
+                    p.truncate(n);
+                    let mut z = rng.range(1, 4);
+                    while z > 1 && z + (4 - (n + z) % 4) % 4 > 4 {
+                        z -= 1;
+                    }
+                    p.extend(std::iter::repeat(0).take(z));
+                    l.segs.push(Seg::Frame { payload: Hx(p), enc: Enc::Ref, faults: vec![] });
+                }
+            }
             l.knobs.insert("max_payload".into(), n as i64);
         }
         "after-reset" | "after-finalize" => {
@@ -337,6 +360,51 @@ impl Prop for C08Prop {
             return Outcome::default();
         }
         if (l.sub == "after-reset" || l.sub == "after-finalize") && !l.ops.iter().any(|(p, _)| *p == idle_pos) {
+            return Outcome::default();
+        }
+        // the history must still be one that ends in an idle decoder (the minimiser may have changed it)
+        let hist = &l.segs[..idle_seg];
+        let cap = match l.buf {
+            BufKind::Arr(n) => n,
+            BufKind::Default => 8192,
+            BufKind::Vec => usize::MAX,
+        };
+        let hist_ok = match l.sub.as_str() {
+            "new" => hist.is_empty(),
+            "after-delivered" => matches!(hist, [Seg::Frame { payload, faults, .. }] if faults.is_empty() && payload.len() <= cap),
+            "after-invalid-message" => matches!(hist, [Seg::Frame { payload, faults, .. }] if faults.len() == 1 && payload.len() <= cap
+                && matches!(faults[0], WireFault::Flip { at, .. } if at + 2 >= refenc(payload).len() && at < refenc(payload).len())),
+            "after-invalid-esc" => matches!(hist, [Seg::Raw(b)] if b.len() >= 16 && b.len() % 4 == 0 && b[..8] == START && b[b.len() - 8..b.len() - 4] == [0x1b; 4]
+                && ![0x1b, 0x01, 0x1a].contains(&b[b.len() - 4]) && b.len() - 16 <= cap && !b[8..b.len() - 8].contains(&0x1b)),
+            "after-oom" => match hist {
+                [Seg::Cut { payload, cut }] => {
+                    // N data bytes that fit, then either one more ordinary byte, or 1-4 zeros and one more byte
+                    cap != usize::MAX
+                        && *cut == 8 + payload.len()
+                        && payload.len() > cap
+                        && payload.len() <= cap + 5
+                        && !payload.contains(&0x1b)
+                        && payload[..cap].iter().all(|b| *b != 0)
+                        && *payload.last().unwrap() != 0
+                        && payload[cap..payload.len() - 1].iter().all(|b| *b == 0)
+                }
+                [Seg::Frame { payload, faults, .. }] => {
+                    let z = payload.len().saturating_sub(cap);
+                    cap != usize::MAX
+                        && faults.is_empty()
+                        && (1..=4).contains(&z)
+                        && !payload.contains(&0x1b)
+                        && payload[..cap].iter().all(|b| *b != 0)
+                        && payload[cap..].iter().all(|b| *b == 0)
+                        && z + (4 - payload.len() % 4) % 4 <= 4
+                }
+                _ => false,
+            },
+            "after-reset" | "after-finalize" | "after-io-error" => matches!(hist, [Seg::Raw(_)]),
+            "after-noise-report" => matches!(hist, [Seg::Noise(g), Seg::Frame { payload, faults, .. }] if faults.is_empty() && noise_ok(g) && payload.len() <= cap),
+            _ => false,
+        };
+        if !hist_ok {
             return Outcome::default();
         }
         st.add_dyn(format!("probe.hist.{}", l.sub), 1);
